@@ -167,7 +167,7 @@ prop("C01",
 
 prop("C06",
      title="Message framing does not depend on how the byte stream is segmented",
-     rule="decoder lane (hook H4, the real decode function): for generated response messages (7-byte minimal IntermediateResponse up to 300 KB entries, minimal and random non-minimal length forms, with/without controls) every proper prefix (all of them up to 3000 bytes; header region, stride and tail beyond) must return 'need more' and leave the buffer byte-identical, and message+trailer must return exactly the message and leave exactly the trailer. connection lanes: a streaming search's item sequence (1-30 messages incl. messages larger than Framed's 8 KiB buffer) is delivered over the in-memory transport under partitions: single read, byte-by-byte, random cuts, fixed chunk sizes around 8192, every single split point (exhaustive, sequences <=700 bytes) and every pair of split points (exhaustive, <=64 bytes); after each chunk a quiescence barrier (paused clock) compares the number of items the client holds with the number of messages completely written: more = surfaced before its last byte, fewer = complete message withheld; the final item sequence and result must be identical under every partition; the sequences also contain messages addressed to nobody (ID 0 notices, unknown IDs) which must be skipped without disturbing the framing of what follows. distinct = distinct message sequences; evidence counts prefixes, partitions and barriers checked",
+     rule="decoder lane (hook H4, the real decode function): for generated response messages (7-byte minimal IntermediateResponse up to 300 KB entries, minimal and random non-minimal length forms, with/without controls) every proper prefix (all of them up to 3000 bytes; header region, stride and tail beyond) must return 'need more' and leave the buffer byte-identical, and message+trailer must return exactly the message and leave exactly the trailer. connection lanes: a streaming search's item sequence (1-30 messages incl. messages larger than Framed's 8 KiB buffer) is delivered over the in-memory transport under partitions: single read, byte-by-byte, random cuts, fixed chunk sizes around 8192, every single split point (exhaustive, sequences <=700 bytes) and every pair of split points (exhaustive, <=64 bytes); after each chunk a quiescence barrier (paused clock) compares the number of items the client holds with the number of messages completely written: more = surfaced before its last byte, fewer = complete message withheld; the final item sequence and result must be identical under every partition; the sequences also contain messages addressed to nobody (ID 0 notices, unknown IDs) which must be skipped without disturbing the framing of what follows. bursts lane: one search answered with 1100-6100 small messages written at once, in 701/8192/65536-byte pieces and at random cuts; the client must receive all of them however fast they arrive. distinct = distinct message sequences; evidence counts prefixes, partitions and barriers checked",
      claim="held on every generated message, prefix and partition of this run; exhaustive over single (and, for short sequences, double) split points of the generated sequences",
      design="3/C06", technique="prefix/partition enumeration against the real decoder (H4) and the real connection, with quiescence-barrier observation of delivered-item counts",
      note=NETWORLD)
@@ -183,7 +183,7 @@ prop("C10",
 
 prop("C13",
      title="Completed operations leave nothing behind",
-     rule="random histories of 3-20 steps (long_histories: 600 steps) on one connection over 17 step kinds: single op, single op with unsolicited/unknown-ID responses, search() read to the end, direct stream read to the end, direct stream finished early at every position (rest of the items never sent or sent late), PagedResults search alone and behind EntriesOnly over 0-25 entries and page sizes 1-8, PagedResults finished early on a later page, single-op timeout (reply never / late), stream timeout with the server silent afterwards or answering late, search() call timing out, zero-timeout abandon of an in-flight op, abandon of a finished op, of a timed-out op, of an in-flight single op and of an in-flight stream (from a cloned handle). After every step the harness waits 1.5 virtual seconds (late replies arrive, paused-clock quiescence) and reads the ID table (hook H2) and the driver's routing-map sizes (hook H3): any newly reserved ID or routing entry is attributed to the step that left it. Abandon oracle: the server saw an AbandonRequest naming the given ID, the waiting caller returned an error, the ID is released. distinct = distinct step sequences; evidence counts quiescent points checked and steps per kind",
+     rule="random histories of 3-20 steps (long_histories: 600 steps) on one connection over 20 step kinds: single op, single op with unsolicited/unknown-ID responses, search() read to the end, direct stream read to the end, direct stream finished early at every position (rest of the items never sent or sent late), PagedResults search alone and behind EntriesOnly over 0-25 entries and page sizes 1-8, PagedResults finished early on a later page, single-op timeout (reply never / late), stream timeout with the server silent afterwards or answering late, search() call timing out, zero-timeout abandon of an in-flight op, single op / stream start / search() call timing out while the driver is stuck writing the request (transport back-pressure released 300 ms later), abandon of a finished op, of a timed-out op, of an in-flight single op and of an in-flight stream (from a cloned handle). After every step the harness waits 1.5 virtual seconds (late replies arrive, paused-clock quiescence) and reads the ID table (hook H2) and the driver's routing-map sizes (hook H3): any newly reserved ID or routing entry is attributed to the step that left it. Abandon oracle: the server saw an AbandonRequest naming the given ID, the waiting caller returned an error, the ID is released. distinct = distinct step sequences; evidence counts quiescent points checked and steps per kind",
      claim="held at every quiescent point of every generated history of this run (zero reserved IDs and zero routing entries, i.e. no growth over 600-step histories)",
      design="3/C13", technique="invariant hook at quiescent points (ID table + routing-map gauges) over scripted histories on a paused clock, plus wire-log check of AbandonRequest",
      note=NETWORLD + "; streams dropped without finish() are excluded (the property speaks of finished streams)")
@@ -199,7 +199,7 @@ prop("C16",
 
 prop("C12",
      title="Timeouts fire on time, keep the connection usable and orphan the late reply",
-     rule="paused virtual clock, so every time is exact to tokio's 1 ms timer granularity. Per case 1-4 cloned handles each run 1-6 operations concurrently: single operations and direct streaming searches, with no timeout or a timeout in {0,1,10,50,100,1000,60000,3600000} ms; the scripted server answers after delays chosen around the deadline (T/2, T-1, T, T+1, 2T+5, fixed values, never), for searches with one such gap before every item and before Done. Every client event (response, item, end, timeout, finish) is recorded with its virtual time and compared with the expected timeline: response iff it arrives strictly before the deadline, at its arrival time; otherwise Timeout exactly at the deadline; for searches the deadline restarts at each received item (all gaps < T => everything delivered however long the total); arrival exactly at the deadline is a tie and not judged. Afterwards (3 virtual hours later, every late reply has arrived): no returned value carries another operation's token, no ID is reserved (H2), the driver holds no routing entries (H3), the driver is still running, and after positioning the ID counter at 0 the next operation gets ID 1 and succeeds. non-trivial = cases in which at least one operation is expected to time out; distinct = distinct programs",
+     rule="paused virtual clock, so every time is exact to tokio's 1 ms timer granularity. Per case 1-4 cloned handles each run 1-6 operations concurrently: single operations and direct streaming searches, with no timeout, a timeout in {0,1,10,50,100,1000,60000,3600000} ms, or (1 in 12) an effectively infinite one (Duration::MAX, u64::MAX s, i64::MAX s) which must behave like no timeout; the scripted server answers after delays chosen around the deadline (T/2, T-1, T, T+1, 2T+5, fixed values, never), for searches with one such gap before every item and before Done. Every client event (response, item, end, timeout, finish) is recorded with its virtual time and compared with the expected timeline: response iff it arrives strictly before the deadline, at its arrival time; otherwise Timeout exactly at the deadline; for searches the deadline restarts at each received item (all gaps < T => everything delivered however long the total); arrival exactly at the deadline is a tie and not judged. Afterwards (3 virtual hours later, every late reply has arrived): no returned value carries another operation's token, no ID is reserved (H2), the driver holds no routing entries (H3), the driver is still running, and after positioning the ID counter at 0 the next operation gets ID 1 and succeeds. non-trivial = cases in which at least one operation is expected to time out; distinct = distinct programs",
      claim="held on every generated timing program of this run; counts of operations expected to time out, ties not judged and ID-reuse checks are in the evidence",
      design="3/C12", technique="virtual-time trace checker: client events timestamped on a paused clock compared with the timeline computed from the scripted reply delays; H2/H3 invariant at the final quiescent point",
      note=NETWORLD + "; 'on time' is a statement about virtual time")
@@ -207,7 +207,7 @@ prop("C12",
 
 prop("C05",
      title="In-flight operations never share a message ID; IDs stay within 1..2^31-1",
-     rule="wrap lane: for every subset of {1,2,3,4,MAX-3,MAX-2,MAX-1,MAX} (256 patterns) real pending operations are parked on exactly those IDs (single operations the server never answers, streaming searches that have already received 0-2 entries and are kept open, streams read to Done but not yet finished, or streams whose per-item timeout has fired but which are not yet finished; finishing the ended streams later, after their old ID has been re-allocated to a new operation, must not release the new owner's ID; the counter is positioned with hook H2 before each), then the counter is positioned at MAX-k for every k in 0..=8 and 2k+8 operations are issued, some answered, some left pending; every request's wire ID must lie in 1..=2^31-1, differ from every outstanding ID and equal the choice of a reference allocator (last+1, wrap MAX->1, skip in-use) run in lock step, and the library's ID table (H2) must equal the model's after every step. threads lane: 4-48 tasks on cloned handles on a multi-thread tokio runtime with 2-8 real worker threads issue server-answered and locally completing operations; the server holds replies until many requests are outstanding and releases them in one burst in random order so that all waiting tasks allocate at the same moment; it checks every arriving ID against the set of requests it has not yet answered (a third of the cases start just below the wrap point). Miri lane (thorough): the threads lane at tiny size under Miri's data-race detector and preemptive scheduler. non-trivial = cases whose allocations crossed the wrap point / all threaded cases",
+     rule="wrap lane: for every subset of {1,2,3,4,MAX-3,MAX-2,MAX-1,MAX} (256 patterns) real pending operations are parked on exactly those IDs (single operations the server never answers, streaming searches that have already received 0-2 entries and are kept open, streams read to Done but not yet finished, or streams whose per-item timeout has fired but which are not yet finished; or PagedResults searches whose first page ended under the slot's ID and whose second page runs under an ID from a distant pen; finishing the ended streams later, after their old ID has been re-allocated to a new operation, must not release the new owner's ID (a paged stream releases its current page's ID only); the counter is positioned with hook H2 before each), then the counter is positioned at MAX-k for every k in 0..=8 and 2k+8 operations are issued, some answered, some left pending; every request's wire ID must lie in 1..=2^31-1, differ from every outstanding ID and equal the choice of a reference allocator (last+1, wrap MAX->1, skip in-use) run in lock step, and the library's ID table (H2) must equal the model's after every step. threads lane: 4-48 tasks on cloned handles on a multi-thread tokio runtime with 2-8 real worker threads issue server-answered and locally completing operations; the server holds replies until many requests are outstanding and releases them in one burst in random order so that all waiting tasks allocate at the same moment; it checks every arriving ID against the set of requests it has not yet answered (a third of the cases start just below the wrap point). Miri lane (thorough): the threads lane at tiny size under Miri's data-race detector and preemptive scheduler. non-trivial = cases whose allocations crossed the wrap point / all threaded cases",
      claim="held on every enumerated wrap pattern and every threaded run of this execution; exhaustive over the 256 x 9 parked-pattern/position grid; concurrency evidence lists requests checked and the peak number of simultaneously outstanding operations observed",
      design="3/C05", technique="lock-step executable allocator model over the wire log + H2 table; interval-overlap check at the server under real multi-threading; Miri race detector",
      note=NETWORLD + "; the threads lane uses real time and real OS threads (no paused clock)")
@@ -217,14 +217,14 @@ EXTRA_LANES["C05"] = [miri_lane()]
 prop("C11",
      title="Hostile or corrupt server bytes cannot crash or wedge the connection",
      rule="inputs: random bytes; random bodies behind a plausible SEQUENCE header; structural single and double mutations of valid response messages of every type (element deleted/duplicated/appended, class or tag changed, constructed<->primitive swapped, emptied, primitive content replaced incl. widened/negative integers and non-UTF-8, children reversed); byte-level mutations (every length field +-1/+-big/other form, truncation, bit flips, byte replace/insert/delete); hand-picked classics (30 00, inner length exceeding outer, missing ID, empty BOOLEAN, unknown op for a search ID, malformed SearchResultDone); nesting up to depth 60. decoder and driver lanes run as child-process shards so that a process abort (allocation failure, abort-on-double-panic, stack overflow) becomes a verdict ('process-killed-by-signal') instead of taking the checker down. decoder lane (H4, real decode function, catch_unwind per input): a panic is a violation; 'need more' while the buffer already holds the outer TLV's announced length is a wedge. driver lane: a bind pending on ID 1 and a search (0-2 entries already delivered) on ID 2, then the hostile frame addressed to one of them, optionally followed by valid responses, then EOF: drive() must return without panicking, both callers must resolve under the virtual-time watchdog, and a frame that is not an envelope (outer not a universal SEQUENCE, <2 elements, first element not an INTEGER in 0..2^31-1) must end the connection with an error both callers observe. stack lane: child processes decode and drive nested TLVs (three shapes) of depth 10..250000 (up to ~1 MB) on 2 MiB thread stacks; death by signal is a violation, inability to spawn is inconclusive. distinct = distinct input byte strings",
-     claim="held on every hostile input of this run (no decoder or driver panic, no wedge, no hang, no stack overflow up to the probed depth); caller-side panics on malformed single-operation results are counted in the evidence but not judged because the property speaks of the connection driver",
+     claim="held on every hostile input of this run (no decoder or driver panic, no wedge, no hang, no stack overflow up to the probed depth); caller-side panics on malformed single-operation results are counted here and judged by C04's malformed_results lane",
      design="3/C11", technique="mutation-based hostile-input monitor on the real decoder (catch_unwind) and the real driver (virtual-time watchdog), plus a subprocess stack probe",
      note=NETWORLD + "; 'complete frame' is judged by the harness' own BER header parser; first bytes with tag number 31 are not judged for wedging")
 
 
 prop("C04", level="fault_enumeration",
      title="Every operation terminates; losing the connection fails all pending work",
-     rule="cuts lane (fault enumeration): a scenario = 0-4 pending single operations + 0-3 pending streaming searches (0-4 items each, read eagerly) + a seeded interleaving of their responses (some operations left unanswered) + a fault kind in {server EOF, read error, complete undecodable frame, client unbind with the server closing on UnbindRequest} + barrier/no-barrier; the response stream is B bytes long and the scenario is run once for EVERY cut position p in 0..=B (undecodable frames only at message boundaries): the server delivers the first p bytes, passes a quiescence barrier, then injects the fault. Expected outcome per call is computed from the byte offsets: response complete before the cut (and barrier) => must be Ok with exactly its token; not complete => must be Err; complete without barrier => either, never wrong or partial data; stream items complete before the cut are returned in order, then Err (Ok(None) only if Done preceded the cut). Then: a later operation must fail with zero virtual time elapsed and zero bytes reaching the server, drive() must return under the virtual-time watchdog, unbind must return Ok and shut the transport, and the transport must be shut or dropped after every fault. write_errors lane: 0-2 single operations and 0-2 streams pending, then a write error at every byte position of the next request. handle_drops lane: clones and streams holding handles dropped one by one: transport open while any is alive, closed with drive() returning Ok after the last. real_transports lane: the same loss/unbind scenarios over real loopback TCP and Unix socket pairs (ConnType::Tcp / ConnType::Unix arms, which the in-memory transport bypasses): peer must observe EOF after unbind even while handles are kept, pending operations fail after the peer closes (wall-clock expiry = retried, then inconclusive). paged_connection_loss lane: a PagedResults search loses the connection inside a page and exactly at a page boundary (after the page's SearchResultDone, before/while the follow-up request): the caller must get an error, never a clean end of results. distinct = distinct scenarios; evidence counts runs (= scenarios x cut points)",
+     rule="cuts lane (fault enumeration): a scenario = 0-4 pending single operations + 0-3 pending streaming searches (0-4 items each, read eagerly) + a seeded interleaving of their responses (some operations left unanswered) + a fault kind in {server EOF, read error, complete undecodable frame, client unbind with the server closing on UnbindRequest} + barrier/no-barrier; the response stream is B bytes long and the scenario is run once for EVERY cut position p in 0..=B (undecodable frames only at message boundaries): the server delivers the first p bytes, passes a quiescence barrier, then injects the fault. Expected outcome per call is computed from the byte offsets: response complete before the cut (and barrier) => must be Ok with exactly its token; not complete => must be Err; complete without barrier => either, never wrong or partial data; stream items complete before the cut are returned in order, then Err (Ok(None) only if Done preceded the cut). Then: a later operation must fail with zero virtual time elapsed and zero bytes reaching the server, drive() must return under the virtual-time watchdog, unbind must return Ok and shut the transport, and the transport must be shut or dropped after every fault. write_errors lane: 0-2 single operations and 0-2 streams pending, then a write error at every byte position of the next request. handle_drops lane: clones and streams holding handles dropped one by one: transport open while any is alive, closed with drive() returning Ok after the last. real_transports lane: the same loss/unbind scenarios over real loopback TCP and Unix socket pairs (ConnType::Tcp / ConnType::Unix arms, which the in-memory transport bypasses): peer must observe EOF after unbind even while handles are kept, pending operations fail after the peer closes (wall-clock expiry = retried, then inconclusive). The real_transports lane also runs StartTLS establishment (no connection timeout configured) against a server that closes before or after the request, answers an unknown ID or sends an unsolicited notice and then closes or refuses, or sends half a response: the establishing call must return an error (pending after 8 s => retried alone with 40 s => hang). malformed_results lane: the hostile frames of C11 (random bytes, structural and byte-level mutations of valid responses) arrive while a bind and a search are pending; every operation future must complete with a value or an error: a panic in the caller's task or a caller left pending is a violation. paged_connection_loss lane: a PagedResults search loses the connection inside a page and exactly at a page boundary (after the page's SearchResultDone, before/while the follow-up request): the caller must get an error, never a clean end of results. distinct = distinct scenarios; evidence counts runs (= scenarios x cut points)",
      claim="exhaustive over cut positions for each generated scenario, and over the byte positions of the failing request; held on every run",
      design="3/C04", technique="fault enumeration over response-stream cut points on the in-memory transport with a virtual-time hang watchdog; expected outcomes computed from wire offsets",
      note=NETWORLD + "; a hang is a client future still pending when the paused-clock runtime is idle (24 virtual hours watchdog), not a wall-clock deadline")
@@ -240,7 +240,7 @@ prop("C19",
 
 prop("C18", timeout_quick=1500,
      title="Connection setup honours the URL and fails cleanly on bad input",
-     rule="real loopback sockets: TCP listeners on 127.0.0.1/[::1] ports 389 and 636 (the sandbox runs as root), ephemeral ports, a listener that reads and never answers, a port with no listener, and Unix socket listeners at generated paths (plain; with space, '%', non-ASCII and ':' needing percent-encoding). An enumerated table of (URL, StartTLS, timeout, pre-opened TCP/Unix/Invalid stream) cases with the expected outcome derived from the property: explicit host/port, default ports 389/636, missing or empty host = localhost (ldap:///, ldap://, ldap:), IPv6 literal, ldapi percent-decoding, empty and port-bearing ldapi paths, unknown schemes, unparsable URLs, refused port, pre-opened stream used iff its type matches the scheme (and then no new connection is made; an Invalid or TCP-typed stream with an ldapi URL naming a LIVE socket must fail, not fall back to connecting by path), connection timeout bounding StartTLS / TLS handshake against a silent server; plus 300 seeded fuzzed scheme/separator/host/port/path/settings combinations for which only 'no panic, no hang' is required. Every case runs through LdapConnAsync::with_settings and LdapConn::with_settings; the oracle compares Ok/Err/panic and WHICH listener received a connection. distinct = distinct (URL, settings, API) cases",
+     rule="real loopback sockets: TCP listeners on 127.0.0.1/[::1] ports 389 and 636 (the sandbox runs as root), ephemeral ports, a listener that reads and never answers, a port with no listener, and Unix socket listeners at generated paths (plain; with space, '%', non-ASCII and ':' needing percent-encoding). An enumerated table of (URL, StartTLS, timeout, pre-opened TCP/Unix/Invalid stream) cases with the expected outcome derived from the property: explicit host/port (incl. explicit ports equal to the other scheme's default: ldaps://h:389, ldap://h:636), default ports 389/636, missing or empty host = localhost (ldap:///, ldap://, ldap:), IPv6 literal, ldapi percent-decoding, empty and port-bearing ldapi paths, unknown schemes, unparsable URLs, refused port, pre-opened stream used iff its type matches the scheme (and then no new connection is made; an Invalid or TCP-typed stream with an ldapi URL naming a LIVE socket must fail, not fall back to connecting by path), connection timeout bounding StartTLS / TLS handshake against a silent server; plus 300 seeded fuzzed scheme/separator/host/port/path/settings combinations for which only 'no panic, no hang' is required. Every case runs through LdapConnAsync::with_settings and LdapConn::with_settings; the oracle compares Ok/Err/panic and WHICH listener received a connection. distinct = distinct (URL, settings, API) cases",
      claim="held on the enumerated matrix and the fuzzed combinations of this run; real time is used only for hang detection: a setup call still pending after 8 s is retried once alone with a 40 s guard and only a call pending both times is a hang; a call that returns late is inconclusive, a port that cannot be bound makes its cases inconclusive",
      design="3/C18", technique="listener-attribution monitor on real loopback/Unix sockets over an enumerated URL x settings matrix plus URL fuzzing with panic capture",
      note="needs to bind 127.0.0.1:389/636 (root); runs are serialised with a lock file; scratch sockets live under /tmp for the duration of the run only")
@@ -248,7 +248,7 @@ prop("C18", timeout_quick=1500,
 
 prop("C14",
      title="The synchronous API is observationally identical to the asynchronous one",
-     rule="a generated script of 2-11 steps over the whole LdapConn/EntryStream surface (simple and SASL EXTERNAL bind, search, streaming_search and streaming_search_with [EntriesOnly, PagedResults, both] read to the end or finished after k next() calls, add, compare, delete, modify, modifydn, extended, abandon, unbind, last_id, is_closed, with_controls / with_timeout / with_search_options before any of them) is executed twice against the same deterministic scripted server (behaviour chosen by the request itself: success, error codes, entries+references with controls, paging, silence with a 60 ms client timeout, disconnect) over a Unix socket pair handed in through StdStream::Unix: once through LdapConn, once through LdapConnAsync/Ldap. Oracle: the two decoded request sequences are equal (SET OF as multisets, raw bytes equal for every request without a SET OF), and the two sequences of results / errors (by class) / stream items / stream end states / last_id / is_closed values are equal. distinct = distinct scripts",
+     rule="a generated script of 2-11 steps over the whole LdapConn/EntryStream surface (simple and SASL EXTERNAL bind, search, streaming_search and streaming_search_with [EntriesOnly, PagedResults, both] read to the end or finished after k next() calls, add, compare, delete, modify, modifydn, extended, abandon, unbind, last_id, is_closed, abandon(last_id()), abandon(0), searches with an unparsable filter while modifiers are pending, with_controls / with_timeout / with_search_options before any of them) is executed twice against the same deterministic scripted server (behaviour chosen by the request itself: success, error codes, entries+references with controls, paging, silence with a 60 ms client timeout, disconnect) over a Unix socket pair handed in through StdStream::Unix: once through LdapConn, once through LdapConnAsync/Ldap. Oracle: the two decoded request sequences are equal (SET OF as multisets, raw bytes equal for every request without a SET OF), and the two sequences of results / errors (by class) / stream items / stream end states / last_id / is_closed values are equal. distinct = distinct scripts",
      claim="held on every generated script of this run (per-operation step counts and requests compared in the evidence)",
      design="3/C14", technique="differential monitor: one script, two API front-ends, same scripted server; wire transcript and return values compared",
      note="real sockets and real time (LdapConn owns a private runtime that cannot be paused): timeouts are compared by outcome class only")
@@ -256,7 +256,7 @@ prop("C14",
 
 prop("C17",
      title="Requested TLS is never silently downgraded",
-     rule="real loopback TCP with a harness server = raw cleartext tap + native-tls acceptor using certificates minted by certs/gen.sh (trusted for localhost/127.0.0.1 through SSL_CERT_FILE, wrong-name, untrusted CA, self-signed). Full matrix {ldap+StartTLS, ldaps, ldaps with the StartTLS flag} x {no_tls_verify on/off} x {host name, IP literal} x server behaviours {TLS with each certificate, StartTLS refused with sampled non-zero codes (always incl. referral code 10, which ExopResult::non_error() would accept), StartTLS refused but the server then performs a TLS handshake anyway, garbage answer, well-formed non-extended answer, close, forged cleartext LDAP responses (for the IDs the client will use next, 1-64 copies) in the same segment as the StartTLS success, forged cleartext in a later segment}; after establishment two binds are issued which the server answers INSIDE TLS with rc 49. Oracle: every cleartext byte the server received is exactly one StartTLS ExtendedRequest (ldaps: first bytes are a TLS handshake record) and no LDAP message follows it in the clear; establishment returns Err when StartTLS is not success, the answer is garbage/closed, or the certificate must not verify (unless verification is disabled); a returned handle implies a completed handshake; no operation result carries the forged cleartext token or anything not sent inside TLS. thorough adds a valgrind memcheck pass over the OpenSSL FFI path. distinct = distinct matrix cells (x repetitions with different refusal codes / injection sizes)",
+     rule="real loopback TCP with a harness server = raw cleartext tap + native-tls acceptor using certificates minted by certs/gen.sh (trusted for localhost/127.0.0.1 through SSL_CERT_FILE, wrong-name, untrusted CA, self-signed). Full matrix {ldap+StartTLS, ldaps, ldaps with the StartTLS flag} x {no_tls_verify on/off} x {host name, IP literal} x server behaviours {TLS with each certificate, StartTLS refused with sampled non-zero codes (always incl. referral code 10, which ExopResult::non_error() would accept), StartTLS refused but the server then performs a TLS handshake anyway, a well-formed envelope whose StartTLS result cannot be decoded (5 shapes) followed by a server-side handshake, garbage answer, well-formed non-extended answer, close, forged cleartext LDAP responses (for the IDs the client will use next, 1-64 copies) in the same segment as the StartTLS success, forged cleartext in a later segment}; after establishment two binds are issued which the server answers INSIDE TLS with rc 49. Oracle: every cleartext byte the server received is exactly one StartTLS ExtendedRequest (ldaps: first bytes are a TLS handshake record) and no LDAP message follows it in the clear; establishment returns Err when StartTLS is not success, the answer is garbage/closed, or the certificate must not verify (unless verification is disabled); a returned handle implies a completed handshake; no operation result carries the forged cleartext token or anything not sent inside TLS. thorough adds a valgrind memcheck pass over the OpenSSL FFI path. distinct = distinct matrix cells (x repetitions with different refusal codes / injection sizes)",
      claim="held on every cell of the matrix in this run; establishment hangs bounded by the 6 s connection timeout are inconclusive, not violations",
      design="3/C17", technique="wire-tap monitor on real loopback TLS: cleartext byte oracle + establishment-outcome table + forged-response tokens; valgrind memcheck for the native TLS path",
      note="needs loopback TCP and the openssl CLI at setup time; trust is injected with SSL_CERT_FILE (honoured by the default native-tls connector); tls-rustls feature code is not built in this configuration and is out of reach")
